@@ -98,6 +98,7 @@ func check(c *core.Ctx, sel string, ss styleSpec) {
 	}
 	c.Eval(1)
 	k := kase{Selector: util.Q(sel), Const: ""}
+	c.Note(func() interface{} { return k })
 	if ss.konst != "" {
 		k.Const = util.Q(ss.konst)
 	}
